@@ -1,7 +1,7 @@
 (** Correspondence cases for C02: densities, mass functions and moments on binary64, with the libm calls
     answered from the table recorded during the real run; [Gam], [Bet], [Erf] are the C09 models. *)
 From Coq Require Import List Floats ZArith.
-From Compute Require Export Base.Ops Model.Special Model.Dists Model.MatMul Model.MVN.
+From Compute Require Export Base.Ops Model.Special Model.Dists Model.MatMul Model.MVN Model.MVNNew.
 Import ListNotations.
 
 Inductive case :=
@@ -14,7 +14,11 @@ Inductive case :=
 (** multivariate normal of dimension [n]: covariance, and the cached inverse and determinant recomputed with the
     same public functions ([Matrix::inv], [Matrix::det]), mean, point *)
 | CMvnPdf (t : libm_table) (n : nat) (cov cinv : list float) (cdet : float) (mu x : list float) (e : outcome (list float))
-| CMvnLnPdf (t : libm_table) (n : nat) (cov cinv : list float) (cdet : float) (mu x : list float) (e : outcome (list float)).
+| CMvnLnPdf (t : libm_table) (n : nat) (cov cinv : list float) (cdet : float) (mu x : list float) (e : outcome (list float))
+(** END TO END (Model/MVNNew.v): [MVN::new(mu, Matrix::new(cov, r, c))] with the Cholesky factor, the inverse and the
+    determinant computed by the models of C01 / C11, then [pdf(x)] / [ln_pdf(x)]; nothing is recorded but libm *)
+| CMvnPdfE (t : libm_table) (r c : nat) (cov mu x : list float) (e : outcome (list float))
+| CMvnLnPdfE (t : libm_table) (r c : nat) (cov mu x : list float) (e : outcome (list float)).
 
 Definition moment_float (m : moment float) : float :=
   match m with Fin x => x | PInf => infinity | Undef => nan end.
@@ -34,4 +38,8 @@ Definition check (c : case) : bool :=
       fout_eqb (out1 (mvn_pdf (FO t) (sqm n cov) (sqm n cinv) cdet mu x)) e
   | CMvnLnPdf t n cov cinv cdet mu x e =>
       fout_eqb (out1 (mvn_ln_pdf (FO t) (sqm n cov) (sqm n cinv) cdet mu x)) e
+  | CMvnPdfE t r c cov mu x e =>
+      fout_eqb (out1 (mvn_pdf_full (FO t) mu {| nr := r; nc := c; dat := cov |} x)) e
+  | CMvnLnPdfE t r c cov mu x e =>
+      fout_eqb (out1 (mvn_ln_pdf_full (FO t) mu {| nr := r; nc := c; dat := cov |} x)) e
   end.
